@@ -291,4 +291,27 @@ PROPS["C15"] = dict(
     level_note="Trusted: Lean kernel, factgen, encoding/json. Fuel: the driver runs the model with fuel = number of tokens + 2 and reports a driver error if it is ever exhausted.",
 )
 
+PROPS["C08"] = dict(
+    modules=["Hub.Props.C08"],
+    gens=["c08"],
+    rule="generated scripts (4-12 events) of source writes (1-3 member datasets with disjoint ids, batches of 1-5 versions with re-posts, delete/un-delete, several versions per id) "
+         "interleaved with runs of the real IncrementalPipeline.sync / FullSyncPipeline.sync over the real DatasetSource / UnionDatasetSource (with and without LatestOnly, batch sizes "
+         "1,2,3,5,100) into the real datasetSink behind a scripted wrapper: sink rejection at call k, context cancelled after k accepted batches, death (panic) between sink write and "
+         "token store after k batches; after every run: outcome, stored token, the sink's feed length and latest view (c08.run, compared with the model) and the property itself on the real "
+         "state (c08.prop: sink view = source view after an ok run; no id whose latest source version lies below the token differs in the sink; an idle re-run changes neither token nor sink "
+         "feed); non-trivial = at least one failed/killed/died run and some id with several versions",
+    trusted=["badger; the write-time duplicate detection of the sink dataset (C01/C02)", "a process death is simulated by a panic that unwinds the pipeline after the sink accepted the batch "
+             "(the stored state is what a crash would leave; in-memory state of sources and sink survives, as after a failed run)", "HTTP sources/sinks and transforms are outside this check (C10 covers the transform split)"],
+    assumptions=["member datasets of a union have disjoint entity ids (otherwise 'the source's latest view' is not defined)", "no source writes while a run is in progress (the property's premise); writes between runs are arbitrary"],
+    level_text="Proof: in every state reachable through any history of source writes, pages of any size accepted by the sink, token stores, aborts at any point (sink failure, interrupt, kill, death "
+               "between sink write and token store) and full-sync starts that clear the token, the stored token is never ahead of what the sink holds (token_never_ahead, invariant by induction "
+               "over the history); a run that reaches the end of the feed leaves sink view = source view (converges_at_end), any undisturbed run with batch size >= 1 after any history does so and "
+               "stores the end token (next_run_restores), an idle page changes nothing (rerun_changes_nothing); without the token reset a failed full sync diverges (full_sync_abort_without_reset_diverges, "
+               "defect D28, fixed). The order sink-call / error-check / token-store, the reset after startFullSync, the single endFullSync after the read loop and the union source's Update-before-callback "
+               "and return-on-error are regenerated facts (facts_*). The detailed executable model of both pipelines, both sources and the sink (Hub.Pipe) is compared with the real code on generated scripts. "
+               "PARTIAL: a full sync over a multi-version history is not a no-op for the sink's feed (known finding D29).",
+    level_note="Trusted: Lean kernel, factgen, badger. The theorems are about the abstract feed/cursor/token model (Hub.Sync); its refinement by the detailed model Hub.Pipe (latest-only reads, "
+               "union tokens, duplicate detection, CompleteFullSync) is validated by the correspondence, not proved.",
+)
+
 NOT_YET = {}
